@@ -114,13 +114,13 @@ class TranscriptInterval(AbstractFeatureInterval):
             except LocationOverlapException:
                 self.cds = None
 
-            self._cds_frames = cds_frames
+            self._cds_frames = list(cds_frames)
 
         else:
             self.cds = self._cds_frames = self._cds_start = self._cds_end = None
 
-        self._genomic_starts = exon_starts
-        self._genomic_ends = exon_ends
+        self._genomic_starts = list(exon_starts)
+        self._genomic_ends = list(exon_ends)
         self._strand = strand
         self._parent_or_seq_chunk_parent = parent_or_seq_chunk_parent
         self.start = self.genomic_start = exon_starts[0]
